@@ -123,6 +123,7 @@ def evaluate(ast, env):
         if a.ndim == 1: return [J._wrap(float(x), like) for x in a]
         return [[J._wrap(float(x), like) for x in row] for row in a]
     if op == 'field': return env.fields[ast[1]]
+    if op == 'let': return evaluate(ast[2], env)        # a named variable denotes its defining expression
     if op in ('u', 'v'): return env.bf[op]
     if op == 'gw': return Jet(env.gw, None, None, env.d)
     if op == 'jac': return env.jac()
